@@ -55,7 +55,7 @@ def _kind_strategy(kind, mode, knob):
     src = SRC[kind]
     kw = {}
     if kind == "argparse":
-        kw = dict(argparse_only=True, base_exclude=("int_literal", "none_default", "required_bool", "single_literal"))
+        kw = dict(argparse_only=True, base_exclude=())
     ir = domain.ir_strategy(allowed=tuple(src.CORE_ALLOWED), forced=knob if mode == "frontier" else None, **kw)
     return st.builds(lambda i, o, f: {"kind": kind, "ir": i, "opts": o, "file_layer": f == 0}, ir, kinds.opts_strategy(kind),
                      st.integers(0, 3))
